@@ -34,14 +34,11 @@ var curMaxLen = 128
 func setup(a arg) {
 	size.MaxObjectKeys = a.Max
 	size.DefaultRule = size.Rule(a.Rule)
-	curMaxLen = 128
+	curMaxLen = libdefaults.SizeMaxInputLength // default configuration: whatever the library starts with (the statement does not fix the default limit)
 	if a.MaxLen != nil {
 		curMaxLen = *a.MaxLen
 	}
 	size.MaxInputLength = curMaxLen
-	if a.MaxLen == nil { // default configuration: whatever the library starts with (the oracle assumes the documented 128)
-		size.MaxInputLength = libdefaults.SizeMaxInputLength
-	}
 }
 
 // ---------------------------------------------------------------- AST
